@@ -24,7 +24,7 @@ ID = "C16"
 LEVEL = "fault_enumeration"
 RULE = ("systematic product {child behaviour} x {exit path} x {moment} x {entry point} with fixed parameters, plus seeded scenarios with "
         "random latencies/instants/second cancellation; non-trivial = the child misbehaved or the exit was not the plain normal path")
-PROBES = ["client_object_reused", "exit_under_cancel_scope", "exit_under_task_cancel", "exit_under_fail_after", "exit_by_exception", "sigterm_ignored_then_killed",
+PROBES = ["child_state_checked_at_instant_of_exit", "client_object_reused", "exit_under_cancel_scope", "exit_under_task_cancel", "exit_under_fail_after", "exit_by_exception", "sigterm_ignored_then_killed",
           "child_already_dead_at_exit", "cancel_landed_inside_aexit", "request_pending_when_child_died", "spawn_failed", "writer_blocked_at_exit",
           "flood_at_exit"]
 TIERS = {"quick": {"runs": 20000, "wall": 45.0}, "thorough": {"runs": 2000000, "wall": 560.0}}
@@ -37,7 +37,7 @@ STUB = ["child process, pipes and signals: FakeProcess"]
 SHRINK_LISTS = ["body"]
 
 CHILD_KINDS = ["well_behaved", "exits_early", "exits_after_k", "ignores_sigterm", "never_reads", "floods", "closes_stdout", "closes_stdin",
-               "slow_start", "unstartable", "slow_to_die"]
+               "slow_start", "unstartable", "slow_to_die", "floods_then_exits"]
 EXIT_PATHS = ["normal", "exception", "cancel_scope", "fail_after", "task_cancel"]
 MOMENTS = ["before_first", "in_flight", "after_response", "during_aexit"]
 ENTRIES = ["stdio_client", "StdioClient", "StdioTransport", "stdio_client_with_initialize"]
@@ -59,6 +59,11 @@ def _child_cfg(kind, rng=None):
         c["capacity"] = r([64, 1, 4096])
     if kind == "floods":
         c["flood_every"] = r([1, 2, 10])
+    if kind == "floods_then_exits":
+        # writes a burst larger than the client's 100-slot incoming queue, then exits by itself
+        c["burst"] = r([400, 101, 150, 99])
+        c["burst_at"] = r([2, 0, 10])
+        c["exit_at"] = c["burst_at"] + r([1, 0, 5, 50])
     if kind == "closes_stdout":
         c["close_stdout_at"] = r([20, 0, 200])
     if kind == "closes_stdin":
@@ -183,6 +188,12 @@ def execute(scn: dict) -> dict:
         def on_start(child):
             st["child"] = child
             nlines = [0]
+            if ch.get("burst"):
+                def burst():
+                    if child.alive and not child.out_eof:
+                        child.write_stdout([b"".join(b'{"jsonrpc":"2.0","method":"notifications/message","params":{"data":"burst-%d"}}\n' % q for q in range(ch["burst"]))])
+                        sim.fault("child_output_burst_then_exit")
+                sim.at(sim.now() + ticks(ch["burst_at"]), burst, tie=0)
             if ch.get("exit_at") is not None:
                 sim.at(sim.now() + ticks(ch["exit_at"]), child.exit, 3, tie=2)
             if ch.get("close_stdout_at") is not None:
@@ -333,6 +344,8 @@ def execute(scn: dict) -> dict:
             finally:
                 st["t_exit_end"] = sim.now()
                 sim.rec("body", "context-left", st.get("ctx_outcome"))
+                if "child" in st:
+                    st["child_at_left"] = (st["child"].alive, st["child"].reaped)
 
         with patched((anyio, "open_process", factory)):
             body_task = loop.create_task(body(), name="body")
@@ -403,6 +416,28 @@ def execute(scn: dict) -> dict:
                                          f"signals={[s[2] for s in child.signals]}, ctx={st.get('ctx_outcome')})")
         elif not child.reaped:
             V("child-unreaped", tag, "child exited but was never reaped")
+        # ... and none at the very instant the context has been left, when the child dies within the grace periods
+        # (a native task.cancel() landing inside __aexit__ interrupts the wait itself - no shield holds against it; the library then kills
+        #  the child and lets the interruption through without waiting: judged by the state after quiescence only)
+        native_cancel_inside_exit = (path == "task_cancel" and st.get("t_trigger") is not None and st.get("t_body_end") is not None
+                                     and st["t_trigger"] >= st["t_body_end"])
+        if st.get("child_at_left") is not None and st["entered"] and not st.get("second_fired") and not native_cancel_inside_exit:
+            alive_l, reaped_l = st["child_at_left"]
+            sigs = [s[2] for s in child.signals]
+            dies_in_time = False
+            if "SIGKILL" in sigs:
+                dies_in_time = ch["kill_latency"] < 1000
+            elif "SIGTERM" in sigs and not ch.get("ignore_sigterm"):
+                dies_in_time = ch["term_latency"] < 1000
+            elif not sigs and child.t_exit is not None and child.t_exit < st["t_exit_end"] - ticks(4):
+                dies_in_time = True  # exited by itself well before the context was left
+            if dies_in_time:
+                probe("child_state_checked_at_instant_of_exit")
+                if alive_l:
+                    V("child-left-running", "at-exit:" + tag, f"the child was still running at the instant the context was left (signals={sigs}, it needs "
+                                                              f"{ch['term_latency']}/{ch['kill_latency']} ticks to die after TERM/KILL)")
+                elif not reaped_l:
+                    V("child-unreaped", "at-exit:" + tag, f"the child had exited but was not reaped at the instant the context was left (signals={sigs}): nobody waited for it")
         if any(s[2] == "SIGKILL" for s in child.signals) and ch.get("ignore_sigterm"):
             probe("sigterm_ignored_then_killed")
         if child.t_exit is not None and t_begin is not None and child.t_exit <= t_begin:
